@@ -8,7 +8,7 @@ import schemacase as sc
 from common import Result, rng_for
 from coqemit import cq_json, cq_str, cq_list, cq_bool
 
-NAMES = ["uuid", "date-time", "fmtA", "fmtB", "x-y", "", "Ünï", "email"]
+NAMES = ["uuid", "date-time", "fmtA", "fmtB", "x-y", "", "Ünï", "email", "UUID", "fmta", "Date-Time", "FMTB"]   # names are case-sensitive keys
 STRINGS = ["", "abc", "123e4567-e89b-12d3-a456-426614174000", "2020-01-01T00:00:00Z", "a b", "é", "0", "zz"]
 NONSTR = [1, 0, None, True, False, 1.5, ["abc"], {"abc": "abc"}, []]
 
@@ -255,7 +255,7 @@ def run(tier, seed, replay=None):
     res.witness_status = {"C16-K7": "fails" if stats["k7_inputs"] else "not-exercised"}
     res.coverage["distribution"] = stats
     res.coverage["traces_validated_against_impl"] = len(metas)
-    res.coverage["rule"] = ("registration/check histories (corpus + seeded random, <=14 ops quick / <=30 thorough) over a pool of 8 format names "
+    res.coverage["rule"] = ("registration/check histories (corpus + seeded random, <=14 ops quick / <=30 thorough) over a pool of 12 format names (case variants are different names) "
                             "(both built-ins included), 8 strings and 9 non-string values, recording checkers; each check observed through "
                             "String(format=n) or Element(format=n) with warnings captured under the 'always' filter; every history is also run "
                             "through Format.v/Validate.v inside Coq.  Built-ins: enumerated RFC 3339 grammar extremes + random timestamps and "
